@@ -60,9 +60,13 @@ func serverScenario(pollers int, c1, c2, shutdown string, emfile bool) *vsched.S
 	var clientFds []int
 	var connected int
 	var ctxFired bool
+	var retTracked, retOpen, retBusy []int // at the moment Shutdown returned nil: tracked descriptors, open accepted descriptors, descriptors with a user callback executing
+	var inCallback map[int]int
 	sc := &vsched.Scenario{Name: "server", Horizon: 10000}
 	sc.Body = func() {
 		srv, serveErr, shutErr, serveRet, shutRet, clientFds, connected, ctxFired = nil, nil, nil, false, false, nil, 0, false
+		retTracked, retOpen, retBusy = nil, nil, nil
+		inCallback = map[int]int{}
 		netpoll.VerifReset(pollers)
 		srvCounter++
 		name := fmt.Sprintf("verif-%d-%d", os.Getpid(), srvCounter)
@@ -72,18 +76,24 @@ func serverScenario(pollers int, c1, c2, shutdown string, emfile bool) *vsched.S
 		ln := netpoll.VerifNewListener(lfd, &net.UnixAddr{Net: "unix", Name: "@" + name})
 		var err error
 		evl, err = netpoll.NewEventLoop(func(ctx context.Context, c netpoll.Connection) error {
-			vsched.LogEvent(fmt.Sprintf("request:start fd=%d", netpoll.VerifState(c).Fd))
+			fd := netpoll.VerifState(c).Fd
+			inCallback[fd]++
+			vsched.LogEvent(fmt.Sprintf("request:start fd=%d", fd))
 			r := c.Reader()
 			r.Next(r.Len())
 			r.Release()
 			steps(c, 1)
 			vsched.LogEvent("request:end")
+			inCallback[fd]--
 			return nil
 		}, netpoll.WithOnPrepare(func(c netpoll.Connection) context.Context {
 			vsched.LogEvent(fmt.Sprintf("prepare fd=%d", netpoll.VerifState(c).Fd))
 			return context.Background()
 		}), netpoll.WithOnConnect(func(ctx context.Context, c netpoll.Connection) context.Context {
-			vsched.LogEvent(fmt.Sprintf("connect fd=%d", netpoll.VerifState(c).Fd))
+			fd := netpoll.VerifState(c).Fd
+			inCallback[fd]++
+			vsched.LogEvent(fmt.Sprintf("connect fd=%d", fd))
+			inCallback[fd]--
 			return ctx
 		}))
 		if err != nil {
@@ -141,6 +151,18 @@ func serverScenario(pollers int, c1, c2, shutdown string, emfile bool) *vsched.S
 				}
 				vsched.LogEvent("shutdown:call")
 				shutErr = e.Shutdown(ctx)
+				if shutErr == nil && srv != nil {
+					// the state the caller is promised at this very moment
+					retTracked, _ = srv.TrackedPlain()
+					for _, r := range vsyscall.L().Recs {
+						if r.Kind == "accepted" && r.Open {
+							retOpen = append(retOpen, r.Fd)
+							if inCallback[r.Fd] > 0 {
+								retBusy = append(retBusy, r.Fd)
+							}
+						}
+					}
+				}
 				ctxFired = ctx.Err() != nil
 				shutRet = true
 				vsched.LogEvent("shutdown:ret " + fmt.Sprint(shutErr))
@@ -237,6 +259,13 @@ func serverScenario(pollers int, c1, c2, shutdown string, emfile bool) *vsched.S
 					if (r.Kind == "accepted" || strings.HasPrefix(r.Kind, "listener")) && r.Closes != 1 {
 						add("shutdown-nil-fd-open"+cause, fmt.Sprintf("Shutdown returned nil but server-side descriptor %d (%s) was closed %d times", r.Fd, r.Kind, r.Closes))
 					}
+				}
+				// "leaves busy ones running, returns nil only when no tracked connection remains": a
+				// connection whose user callback is still executing (for as long as the user likes)
+				// when Shutdown returns nil. (A teardown already in progress in another goroutine
+				// completes by itself; like Serve's own return it is judged at quiescence, above.)
+				if len(retBusy) != 0 {
+					add("shutdown-nil-while-handler-running", fmt.Sprintf("Shutdown returned nil while user callbacks were still executing on descriptors %v (tracked at that moment: %v, open: %v)", retBusy, retTracked, retOpen))
 				}
 			} else {
 				if shutdown != "shutdown-deadline" || !ctxFired {
